@@ -23,7 +23,8 @@ RULE = (
     "of the destination path; distinct by (tree, spelling, type)."
 )
 ASSUMPTIONS = ["trees are real directories on the scratch filesystem; the reference walks them with os.scandir and joins with os.path.join"]
-MINIMUMS = {"quick": {"trees_judged": 500, "events_judged": 2000}, "thorough": {"trees_judged": 8000}}
+MINIMUMS = {"quick": {"trees_judged": 500, "events_judged": 2000, "rekey_histories": 40, "rekey_probes_judged": 200},
+            "thorough": {"trees_judged": 8000, "rekey_histories": 2000}}
 WALL_CAP = {"quick": 120, "thorough": 1800}
 
 NAMES = ["a", "b", "ab"]
@@ -58,9 +59,13 @@ def all_trees(max_entries=5, max_depth=3):
 
 def build(dest: str, tree):
     os.makedirs(dest)
-    for p, isdir in sorted(tree):
+    for p, isdir in sorted(tree, key=lambda t: (isinstance(t[1], str), t[0])):
         full = os.path.join(dest, p)
-        if isdir:
+        if isinstance(isdir, str):
+            # a symbolic link; "@x" = to x relative to the moved directory's top, anything else verbatim
+            tgt = os.path.relpath(os.path.join(dest, isdir[1:]), os.path.dirname(full)) if isdir.startswith("@") else isdir
+            os.symlink(tgt, full)
+        elif isdir:
             os.mkdir(full)
         else:
             with open(full, "w"):
@@ -76,7 +81,8 @@ def ref_walk(dest):
             nm = os.fsdecode(e.name)
             r = nm if rel is None else os.path.join(rel, nm)
             isd = e.is_dir(follow_symlinks=False)
-            out.append((r, isd))
+            # a link to a directory is one descendant (either flavour accepted); nothing behind it belongs to the tree
+            out.append((r, "either" if (e.is_symlink() and e.is_dir()) else isd))
             if isd:
                 rec(e.path, r)
 
@@ -119,12 +125,17 @@ def judge(b: Batch, base, tree, spelling, as_bytes, empty_src, comp):
         b.case()
         # ---- moved
         got = list(generate_sub_moved_events(src, dest))
+        either = {os.path.join(dest, os.fsencode(r) if as_bytes else r) for r, isd in walk if isd == "either"}
+        if either:
+            b.count("trees_with_directory_links")
+        walk = [(r, False if isd == "either" else isd) for r, isd in walk]
         want = Counter()
         for r, isd in walk:
             rr = os.fsencode(r) if as_bytes else r
             s = os.path.join(src, rr) if src else ""  # an absent source is the empty placeholder (str or bytes accepted)
             want[("DirMovedEvent" if isd else "FileMovedEvent", s, os.path.join(dest, rr), True)] += 1
-        gotc = Counter((type(e).__name__, e.src_path if e.src_path else "", e.dest_path, e.is_synthetic) for e in got)
+        flav = lambda e, p: type(e).__name__.replace("Dir", "File") if p in either else type(e).__name__  # noqa: E731
+        gotc = Counter((flav(e, e.dest_path), e.src_path if e.src_path else "", e.dest_path, e.is_synthetic) for e in got)
         b.count("trees_judged")
         b.count("events_judged", len(got))
         if gotc != want:
@@ -147,7 +158,7 @@ def judge(b: Batch, base, tree, spelling, as_bytes, empty_src, comp):
         for r, isd in walk:
             rr = os.fsencode(r) if as_bytes else r
             want2[("DirCreatedEvent" if isd else "FileCreatedEvent", os.path.join(dest, rr), dest[:0], True)] += 1
-        cc = Counter((type(e).__name__, e.src_path, e.dest_path if e.dest_path else dest[:0], e.is_synthetic) for e in gotc2)
+        cc = Counter((flav(e, e.src_path), e.src_path, e.dest_path if e.dest_path else dest[:0], e.is_synthetic) for e in gotc2)
         b.count("events_judged", len(gotc2))
         if cc != want2:
             b.violation("sub-created-mismatch", f"generate_sub_created_events({dest!r}): missing {list((want2 - cc).items())[:3]!r} unexpected {list((cc - want2).items())[:3]!r}",
@@ -170,9 +181,72 @@ def judge(b: Batch, base, tree, spelling, as_bytes, empty_src, comp):
         shutil.rmtree(dest_abs, ignore_errors=True)
 
 
+REKEY_BIAS = {"mkdir": 4, "makedirs": 3, "rename_dir": 8, "rename_file": 4, "create": 3, "move_in": 2, "move_out": 1.5, "rmtree": 1, "rmdir": 1,
+              "unlink": 1, "write": 0.3, "chmod": 0.2, "rename_replace": 1}
+
+
+def rekey_scripts():
+    """Directed histories for the third anchor (the prefix rewrite of the watch-path map after a directory rename): the old
+    name is re-created and re-used by files and directories, then entries below the renamed directory are renamed again."""
+    out = []
+    for x, y, sub, t in (("a", "b", "s", "t"), ("a", "ab", "a", "b"), ("ab", "a", "b", "ab")):
+        out.append([["makedirs", f"root/{x}/{sub}/u"], ["create", f"root/{x}/{sub}/u/f"], ["drain"], ["rename", f"root/{x}", f"root/{y}"], ["drain"],
+                    ["mkdir", f"root/{x}"], ["drain"], ["create", f"root/{x}/{sub}"], ["drain"], ["rename", f"root/{x}/{sub}", f"root/{x}/{t}"], ["drain"],
+                    ["rename", f"root/{y}/{sub}/u", f"root/{y}/{sub}/v"], ["drain"], ["create", f"root/{y}/{sub}/v/g"], ["drain"]])
+        out.append([["makedirs", f"root/{x}/{sub}/u"], ["drain"], ["rename", f"root/{x}", f"root/{y}"], ["drain"], ["makedirs", f"root/{x}/{sub}"], ["drain"],
+                    ["rename", f"root/{x}/{sub}", f"root/{x}/{t}"], ["drain"], ["create", f"root/{y}/{sub}/u/g"], ["drain"],
+                    ["rename", f"root/{y}", f"root/{x}/{sub}"], ["drain"], ["create", f"root/{x}/{sub}/{sub}/u/h"], ["drain"]])
+    return out
+
+
+def run_rekey(b: Batch, seed, j, n):
+    """In vivo: real inotify observer, paced histories, probes in every directory and replay; a probe reported under a
+    wrong path / not at all, or synthetic events that break the replay, are this property's third anchor failing."""
+    from wdverif import fshist
+    from wdverif.props import c01
+
+    r = rng_for(seed, "c14k", j)
+
+    def fold(h, cfg):
+        b.case()
+        b.count("rekey_histories")
+        b.count("rekey_probes_judged", h.counts.get("probes_judged", 0))
+        if h.inconclusive:
+            b.inconc(f"C14 rekey: {h.inconclusive}")
+        seen = set()
+        for p_, mech, msg, det in h.viol:
+            if (p_, mech.split(":")[0]) in (("C02", "probe-wrong-path"), ("C02", "probe-unreported"), ("C01", "replay-mismatch")) and mech not in seen:
+                seen.add(mech)
+                b.violation("rekey:" + mech, msg, witness={"cfg": cfg, "history": h.ops, "detail": det},
+                            replay_spec={"kind": "rekey1", "cfg": dict(cfg, script=h.ops)})
+        if sum(1 for o in h.ops if o[0] == "rename") >= 2:
+            b.nontrivial(["rekey", cfg.get("seed"), h.ops])
+
+    if j == 0:
+        for k, script in enumerate(rekey_scripts()):
+            for spelling, as_bytes in (("abs", False), ("abs", True), ("rel", False)):
+                cfg = {"seed": seed * 100 + k, "recursive": True, "n_root": 0, "n_out": 1, "final_probes": True, "probe_p": 1.0, "script": script,
+                       "spelling": spelling, "bytes": as_bytes, "backend": "inotify"}
+                h = fshist.History(cfg)
+                h.run()
+                fold(h, cfg)
+                b.count("rekey_scripted")
+    for i in range(n):
+        if b.expired():
+            break
+        cfg = c01.make_cfg(r, seed * 1000003 + j * 10007 + i, probe_p=0.5)
+        cfg.update({"bias": REKEY_BIAS, "n_ops": r.randint(8, 24), "recursive": True, "backend": "inotify", "names": r.choice([["a", "b"], ["a", "ab", "b"], ["a", "s", "t"]])})
+        cfg.pop("mode", None)
+        h = fshist.History(cfg)
+        h.run()
+        fold(h, cfg)
+
+
 def plan(tier, seed, jobs):
     n = len(all_trees())
     specs = []
+    for j in range(4 if tier == "quick" else jobs):
+        specs.append({"kind": "rekey", "seed": seed, "j": j, "n": 40 if tier == "quick" else 1500, "budget_s": 45 if tier == "quick" else 600})
     if tier == "quick":
         k = 32
         for off in range(k):
@@ -215,6 +289,10 @@ def run_batch(spec):
                         judge(b, base, tree, spelling, as_bytes, True, comp)
         elif spec["kind"] == "random":
             r = rng_for(spec["seed"], "c14", spec["j"])
+            ext = os.path.join(top, "ext")
+            os.makedirs(os.path.join(ext, "a"))
+            with open(os.path.join(ext, "o1"), "w"):
+                pass
             for _ in range(spec["n"]):
                 if b.expired():
                     break
@@ -232,8 +310,40 @@ def run_batch(spec):
                     tree.add((p, isd))
                     if isd:
                         dirs.append(p)
+                if r.random() < 0.35:
+                    # symbolic links: to a directory elsewhere in the tree (never an ancestor: no loops), to a directory outside
+                    # the tree, to a file, dangling
+                    for _ in range(r.randint(1, 2)):
+                        par = r.choice(dirs)
+                        ln = (par + "/" if par else "") + r.choice(["l", "a", "ab"])
+                        if ln in {q for q, _ in tree}:
+                            continue
+                        cands = [d for d in dirs if d and not (ln.startswith(d + "/"))] + [q for q, k in tree if k is False]
+                        kind = r.choice(["in", "in", "out", "dangling"])
+                        if kind == "in" and cands:
+                            tree.add((ln, "@" + r.choice(cands)))
+                        elif kind == "out":
+                            tree.add((ln, ext))
+                        else:
+                            tree.add((ln, "nowhere"))
                 judge(b, base, frozenset(tree), r.choice(["abs", "rel", "dot", "dotdot", "slashes"]), r.random() < 0.4, r.random() < 0.15, r.choice(COMPS))
+        elif spec["kind"] == "rekey":
+            run_rekey(b, spec["seed"], spec["j"], spec["n"])
+        elif spec["kind"] == "rekey1":
+            from wdverif import fshist
+
+            h = fshist.History(spec["cfg"])
+            h.run()
+            for p_, mech, msg, det in h.viol:
+                if p_ in ("C01", "C02"):
+                    b.violation("rekey:" + mech, msg, witness={"detail": det})
+            b.case()
         elif spec["kind"] == "one":
+            ext = os.path.join(top, "ext")
+            os.makedirs(os.path.join(ext, "a"))
+            with open(os.path.join(ext, "o1"), "w"):
+                pass
+            spec["tree"] = [(p_, ext if isinstance(d_, str) and d_.endswith("/ext") else d_) for p_, d_ in spec["tree"]]
             judge(b, base, frozenset((p, d) for p, d in spec["tree"]), spec["spelling"], spec["bytes"], spec["empty_src"], tuple(spec["comp"]))
     finally:
         shutil.rmtree(top, ignore_errors=True)
